@@ -520,8 +520,10 @@ pub fn cases_child_main(args: &[String], f: &(dyn Fn(&str, &str, &str, u64) -> C
 /// Wall-clock limit for one chunk of cases (the only clock the case runner reads; it
 /// cannot fire on a chunk that finishes). Chunks are sized to take seconds.
 pub fn chunk_watchdog_secs() -> u64 {
-    std::env::var("VERIF_CHUNK_WATCHDOG").ok().and_then(|s| s.parse().ok()).unwrap_or(600)
+    std::env::var("VERIF_CHUNK_WATCHDOG").ok().and_then(|s| s.parse().ok()).unwrap_or(300)
 }
+
+static WATCHDOG_KILLS: AtomicUsize = AtomicUsize::new(0);
 
 pub struct ChunkResult {
     pub cases: Vec<CaseOut>,
@@ -531,6 +533,12 @@ pub struct ChunkResult {
 
 pub fn run_chunk(prop: &str, batch: &str, first: u64, count: u64, tier: &str, dev: bool) -> ChunkResult {
     let bin = self_exe(dev);
+    // once two chunks of this process's batches were killed by the watchdog, further
+    // chunks are not started (each would cost a full watchdog period): the kills are
+    // reported as violations, the rest as not run
+    if WATCHDOG_KILLS.load(Ordering::SeqCst) >= 2 {
+        return ChunkResult { cases: vec![], died: None };
+    }
     // a chunk that has not finished after the watchdog period is killed (a deadlock or
     // endless loop in the code under test); what it had reported so far is kept
     let child = std::process::Command::new(&bin)
@@ -562,6 +570,7 @@ pub fn run_chunk(prop: &str, batch: &str, first: u64, count: u64, tier: &str, de
             Ok(None) => {
                 if started.elapsed() > limit {
                     timed_out = true;
+                    WATCHDOG_KILLS.fetch_add(1, Ordering::SeqCst);
                     let _ = child.kill();
                     break child.wait().expect("wait after kill");
                 }
